@@ -3,8 +3,10 @@ package main
 import (
 	"fmt"
 	"go/ast"
+	"go/constant"
 	"go/token"
 	"go/types"
+	"math"
 	"strings"
 )
 
@@ -239,7 +241,14 @@ func (c *Ctx) geOneFunc(rule string, f *Func) bool {
 				op = token.LEQ
 			}
 		}
-		id, ok := ast.Unparen(x).(*ast.Ident)
+		// the parameter, possibly widened by a conversion (uint64(p) > math.MaxUint32)
+		xe := ast.Unparen(x)
+		if call, ok := xe.(*ast.CallExpr); ok && len(call.Args) == 1 && resolveCallee(info, call).Conv {
+			if bt, ok := info.TypeOf(call).Underlying().(*types.Basic); ok && (bt.Kind() == types.Uint64 || bt.Kind() == types.Int64 || bt.Kind() == types.Uint || bt.Kind() == types.Int) {
+				xe = ast.Unparen(call.Args[0])
+			}
+		}
+		id, ok := xe.(*ast.Ident)
 		if !ok || !params[info.ObjectOf(id)] {
 			return ""
 		}
@@ -248,6 +257,12 @@ func (c *Ctx) geOneFunc(rule string, f *Func) bool {
 			return ""
 		}
 		k := cv.ExactString()
+		// p > K false / p <= K true with K <= MaxUint32: the value fits the 32-bit limit
+		if kv, exact := constant.Uint64Val(constant.ToInt(cv)); exact && kv <= math.MaxUint32 && kv >= 1 {
+			if (op == token.GTR && !branch) || (op == token.LEQ && branch) {
+				return "fits:" + id.Name
+			}
+		}
 		// p < 1, p <= 0 false  => p >= 1 ; p >= 1, p > 0 true => p >= 1
 		ge1 := false
 		switch {
@@ -276,6 +291,10 @@ func (c *Ctx) geOneFunc(rule string, f *Func) bool {
 			ce := resolveCallee(info, call)
 			if ce.Conv && len(call.Args) == 1 {
 				if id, ok := ast.Unparen(call.Args[0]).(*ast.Ident); ok && params[info.ObjectOf(id)] {
+					// a conversion to a narrower type wraps around: int → uint32 turns 1<<32 into 0
+					if narrowing(info.TypeOf(call.Args[0]), info.TypeOf(call)) {
+						return "ret:narrow:" + id.Name
+					}
 					return "ret:param:" + id.Name
 				}
 				if inner, ok := ast.Unparen(call.Args[0]).(*ast.CallExpr); ok && resolveCallee(info, inner).Key == "runtime.NumCPU" {
@@ -299,6 +318,16 @@ func (c *Ctx) geOneFunc(rule string, f *Func) bool {
 			good := s == "ret:const" || s == "ret:cpus"
 			if strings.HasPrefix(s, "ret:param:") {
 				good = sg.before("ge1:"+s[len("ret:param:"):], s)
+			}
+			if strings.HasPrefix(s, "ret:narrow:") {
+				p := s[len("ret:narrow:"):]
+				good = sg.before("ge1:"+p, s)
+				if good && !sg.before("fits:"+p, s) {
+					c.Rep.fail(rule, f.Short(), "narrowing conversion of an unbounded value", sg.End,
+						"a value that flows into the concurrency limit is converted to a narrower integer type without an upper bound having been established on this path: a large argument wraps around (1<<32 becomes a limit of 0, which stalls the worker) ["+strings.Join(sg.Syms, " ")+"]")
+					all = false
+					continue
+				}
 			}
 			if !c.Rep.check(good, rule, f.Short(), "return value not provably >= 1", sg.End, "return is >= 1 on this path ("+s+")",
 				"a value that flows into the concurrency limit is returned without having been shown >= 1 on this path: ["+strings.Join(sg.Syms, " ")+"]") {
@@ -629,4 +658,27 @@ func (c *Ctx) ruleDispatcherJoined(rule string) {
 		}
 	}
 	c.Rep.check(n > 0, rule, "-", "no re-spawning path found", "", "at least one lifecycle method re-spawns the dispatcher", "no lifecycle method was found that re-spawns the dispatcher: the rule has nothing to check (role resolution changed?)")
+}
+
+// narrowing: converting from to to can lose high-order bits (sizes for a 64-bit platform: int/uint are 64 bits).
+func narrowing(from, to types.Type) bool {
+	fb, ok1 := from.Underlying().(*types.Basic)
+	tb, ok2 := to.Underlying().(*types.Basic)
+	if !ok1 || !ok2 {
+		return false
+	}
+	bits := func(b *types.Basic) int {
+		switch b.Kind() {
+		case types.Int8, types.Uint8:
+			return 8
+		case types.Int16, types.Uint16:
+			return 16
+		case types.Int32, types.Uint32:
+			return 32
+		case types.Int, types.Uint, types.Int64, types.Uint64, types.Uintptr:
+			return 64
+		}
+		return 0
+	}
+	return bits(fb) > 0 && bits(tb) > 0 && bits(fb) > bits(tb)
 }
